@@ -195,6 +195,28 @@ impl<'a, 'tcx> Cx<'a, 'tcx> {
                             let _ = write!(out, ",\"v\":\"{}\"", v);
                         }
                     }
+                } else if let (Const::Unevaluated(..), ty::Ref(_, inner, _)) = (c, ty.kind()) {
+                    // promoted / named `&[u8; N]` constants (hash keys): evaluate and dump as hex
+                    if let ty::Array(elem, len) = inner.kind() {
+                        if *elem == self.tcx.types.u8 {
+                            if let (Some(n), Ok(cv)) = (len.try_to_target_usize(self.tcx), c.eval(self.tcx, self.env, rustc_span::DUMMY_SP)) {
+                                if let ConstValue::Scalar(rustc_middle::mir::interpret::Scalar::Ptr(ptr, _)) = cv {
+                                    let (prov, off) = ptr.prov_and_relative_offset();
+                                    if let rustc_middle::mir::interpret::GlobalAlloc::Memory(a) = self.tcx.global_alloc(prov.alloc_id()) {
+                                        let a = a.inner();
+                                        let lo = off.bytes_usize();
+                                        let hi = lo + n as usize;
+                                        if hi <= a.size().bytes_usize() && n <= 256 {
+                                            let bytes = a.inspect_with_uninit_and_ptr_outside_interpreter(lo..hi);
+                                            let hex: String = bytes.iter().map(|b| format!("{:02x}", b)).collect();
+                                            out.push_str(",\"hex\":");
+                                            esc(&hex, out);
+                                        }
+                                    }
+                                }
+                            }
+                        }
+                    }
                 } else if let Const::Val(ConstValue::Scalar(rustc_middle::mir::interpret::Scalar::Ptr(ptr, _)), _) = c {
                     // `&[u8; N]` literals (format_args! templates, byte strings): dump the bytes (lossy)
                     if let ty::Ref(_, inner, _) = ty.kind() {
